@@ -188,6 +188,10 @@ def mk_phi(test, a, b):
     if is_t(test, "un") and test[1] == "not":
         # `x if not c else y` is `y if c else x`: one canonical form, whatever polarity the source spells
         return mk_phi(test[2], b, a)
+    if is_t(test, "cmp") and test[1] == "!=":
+        return mk_phi(mk_cmp("==", test[2], test[3]), b, a)
+    if is_t(test, "cmp") and test[1] == "is not":
+        return mk_phi(("cmp", "is", test[2], test[3]), b, a)
     if is_t(a, "tuple") and is_t(b, "tuple") and len(a[1]) == len(b[1]) and not _has_star(a) and not _has_star(b):
         return mk_tuple(mk_phi(test, x, y) for x, y in zip(a[1], b[1]))
     return ("phi", test, a, b)
@@ -491,9 +495,12 @@ class _Ctx:
         if isinstance(st, ast.If):
             test = self.expr(st.test, env)
             body, orelse = st.body, st.orelse
-            while is_t(test, "un") and test[1] == "not":
-                # `if not c: A else: B` is `if c: B else: A` - one canonical polarity for path conditions and joins
-                test, body, orelse = test[2], orelse, body
+            while (is_t(test, "un") and test[1] == "not") or (is_t(test, "cmp") and test[1] == "!="):
+                # `if not c: A else: B` is `if c: B else: A` (and `a != b` is `not a == b`) - one canonical polarity for path conditions and joins
+                if is_t(test, "un"):
+                    test, body, orelse = test[2], orelse, body
+                else:
+                    test, body, orelse = mk_cmp("==", test[2], test[3]), orelse, body
             e1 = self.block(body, dict(env), conds + ((test, True),)) if body else dict(env)
             e2 = self.block(orelse, dict(env), conds + ((test, False),)) if orelse else dict(env)
             return _join(test, e1, e2)
